@@ -19,6 +19,7 @@ from lib import sim
 HBARS = [1.0, 0.5, 0.7, 3.0, 4.5, 0.98]
 MAX_WEIGHTS_FOCK = 12
 METHOD_TOL = {"squeezing": 1e-6}
+NAN_WILD = {"squeezing"}
 # power of s carried by numeric parameter j of a class
 PAR_DIM = {"Xgate": [1], "Zgate": [1], "Vgate": [-1]}
 
@@ -36,8 +37,11 @@ def rescale_spec(spec, h):
     """the same experiment written in units where hbar = h (spec is in hbar = 2 units)"""
     s = s_of(h)
     out = copy.deepcopy(spec)
+    last_meas = {}
     for op in out["ops"]:
         cls = op["cls"]
+        if cls in ("MeasureHomodyne", "MeasureHeterodyne"):
+            last_meas[op["regs"][0]] = 1 if cls == "MeasureHomodyne" else 0
         if cls == "Gaussian":
             V, r = op["pars"]
             op["pars"] = [(np.asarray(V, dtype=float) * s * s).tolist(), (np.asarray(r, dtype=float) * s).tolist()]
@@ -46,9 +50,9 @@ def rescale_spec(spec, h):
         for j, p in enumerate(op.get("pars", [])):
             d = par_dim(cls, j)
             if isinstance(p, dict) and "m" in p:
-                # a measured homodyne value carries one power of s itself
+                # a measured homodyne value carries one power of s itself, a heterodyne outcome none
                 q = dict(p)
-                q["k"] = p.get("k", 1) * s ** (d - 1)
+                q["k"] = p.get("k", 1) * s ** (d - last_meas.get(p["m"], 1))
                 new.append(q)
             elif d and isinstance(p, (int, float)):
                 new.append(p * s ** d)
@@ -152,7 +156,11 @@ def observe(sf, st, call, h):
             # (r, phi) = (arccosh(tr/2)/2, -arcsin(...)): arccosh is ill-conditioned at r = 0 and arcsin at |phi| = pi/2,
             # and phi is 0/0 for r = 0.  Compare r and sin(phi) (for r > 1e-4) - with METHOD_TOL["squeezing"]
             sq = np.array(st.squeezing(call.get("modes")), dtype=float)
-            return _arr(np.stack([sq[:, 0], np.where(sq[:, 0] > 1e-4, np.sin(sq[:, 1]), 0.0)], axis=-1))
+            # a vacuum mode has tr/2 = 1 - 1e-16 at some hbar values: arccosh gives nan there, i.e. r = 0 up to rounding;
+            # a mode squeezed along phi = +-pi/2 has |arcsin argument| = 1 + 1e-16 at some hbar values: nan again, the
+            # comparison treats a nan phase as a wildcard (`answers_differ(..., nan_wild=True)`)
+            r = np.nan_to_num(sq[:, 0], nan=0.0)
+            return _arr(np.stack([r, np.where(r > 1e-4, np.sin(sq[:, 1]), 0.0)], axis=-1))
         if m == "is_coherent":
             return bool(st.is_coherent(call["mode"]))
         if m == "is_squeezed":
@@ -215,8 +223,14 @@ def observe(sf, st, call, h):
     raise KeyError(m)
 
 
-def answers_differ(a, b, tol=1e-9):
+def answers_differ(a, b, tol=1e-9, nan_wild=False):
     """None if equal (to tol * scale) else a short description"""
+    if nan_wild and not isinstance(a, (str, bool)) and not isinstance(b, (str, bool)):
+        a, b = np.array(a, dtype=float), np.array(b, dtype=float)
+        if a.shape == b.shape:
+            wild = np.isnan(a) | np.isnan(b)
+            a[wild] = 0.0
+            b[wild] = 0.0
     if isinstance(a, str) or isinstance(b, str):
         return None if (isinstance(a, str) and isinstance(b, str) and a == b) else f"{a!r} vs {b!r}"
     if isinstance(a, bool) or isinstance(b, bool):
@@ -452,6 +466,8 @@ def rand_program(rng, backend, n=None):
                 op = dict(cls="Kgate", regs=[rng.randrange(n)], pars=[round(rng.uniform(-0.4, 0.4), 2)])
         if op["cls"] == "MeasureHomodyne" and op["regs"][0] not in measured:
             measured.append(op["regs"][0])
+        if op["cls"] == "MeasureHeterodyne" and op["regs"][0] in measured:
+            measured.remove(op["regs"][0])       # q[m].par is now the (complex) heterodyne outcome: not fed forward
         if backend == "bosonic" and op["cls"] in ("Catstate", "GKP", "Fock"):
             continue
         if backend == "bosonic" and nong:
